@@ -21,11 +21,11 @@ type Case struct {
 	Cores  int   `json:"cores"`
 	Delays []int `json:"delays"` // per item: microseconds the mapped function takes
 	Fails  []int `json:"fails"`  // items on which the mapped function fails
-	Fn     int   `json:"fn"`     // 0 the native function; 1 a lambda holding operands across nested calls; 2 a lambda returning a lazy collection
+	Fn     int   `json:"fn"`     // 0 the native function; 1 a lambda holding operands across nested calls; 2 a lambda returning a lazy collection; 3 a lambda reading a parameter of an enclosing lambda, map-parallel being called inside that lambda
 }
 
 func gen(t *rapid.T) Case {
-	c := Case{Items: rapid.IntRange(0, 12).Draw(t, "items"), Cores: rapid.IntRange(2, 6).Draw(t, "cores"), Fn: rapid.IntRange(0, 2).Draw(t, "fn")}
+	c := Case{Items: rapid.IntRange(0, 12).Draw(t, "items"), Cores: rapid.IntRange(2, 6).Draw(t, "cores"), Fn: rapid.IntRange(0, 3).Draw(t, "fn")}
 	for i := 0; i < c.Items; i++ {
 		c.Delays = append(c.Delays, rapid.SampledFrom([]int{0, 0, 50, 200, 1000, 3000}).Draw(t, "delay"))
 	}
@@ -86,6 +86,10 @@ func expression(c Case, mapper string) b6.Expression {
 	case 1:
 		// {x -> add-ints (slow x) (add-ints x (probe x))}: x and (slow x) stay on the stack across the calls
 		f = b6.NewLambdaExpression([]string{"x"}, call("add-ints", call("slow", sym("x")), call("add-ints", sym("x"), call("probe", sym("x")))))
+	case 3:
+		// {a -> map-parallel <collection> {x -> add-ints a (probe x)}} 10: the mapped lambda reads the enclosing lambda's argument
+		f = b6.NewLambdaExpression([]string{"x"}, call("add-ints", sym("a"), call("probe", sym("x"))))
+		return b6.NewCallExpression(b6.NewLambdaExpression([]string{"a"}, call(mapper, call("collection", pairs...), f)), []b6.Expression{b6.NewIntExpression(10)})
 	default:
 		// {x -> map (collection (pair 0 x) (pair 1 (probe x))) {y -> add-ints y 1}}: a lazy collection per item
 		f = b6.NewLambdaExpression([]string{"x"}, call("map", call("collection", call("pair", b6.NewIntExpression(0), sym("x")), call("pair", b6.NewIntExpression(1), call("probe", sym("x")))),
@@ -162,7 +166,7 @@ func run(c Case, mapper string, cores int) (items []string, failure error, hung 
 }
 
 func check(c Case) vlib.Outcome {
-	if c.Items < 0 || c.Items > 40 || c.Cores < 2 || c.Cores > 16 || len(c.Delays) != c.Items || c.Fn < 0 || c.Fn > 2 {
+	if c.Items < 0 || c.Items > 40 || c.Cores < 2 || c.Cores > 16 || len(c.Delays) != c.Items || c.Fn < 0 || c.Fn > 3 {
 		return vlib.Outcome{Skip: true}
 	}
 	firstFailure := c.Items
@@ -218,6 +222,6 @@ func check(c Case) vlib.Outcome {
 
 func TestProp(t *testing.T) {
 	vlib.Run(t, vlib.Config{ID: "C25", Name: "map-parallel", CaseTimeout: 120e9,
-		Rule: "collections of 0-12 items mapped with 2-6 cores by a native function, by a lambda that holds operands on the stack across nested calls, or by a lambda returning a lazy collection per item; each item takes a generated time (0-3 ms) and 0-2 generated items fail; the outer result is read to its end and inner collections afterwards; oracle: map on the same input with one core: the same keys and values in the same order; with failing items a prefix of map's results followed by the mapped function's error; and completion within 10 s; non-trivial = more items than cores"},
+		Rule: "collections of 0-12 items mapped with 2-6 cores by a native function, by a lambda that holds operands on the stack across nested calls, by a lambda returning a lazy collection per item, or by a lambda that reads the argument of an enclosing lambda inside which map-parallel is called; each item takes a generated time (0-3 ms) and 0-2 generated items fail; the outer result is read to its end and inner collections afterwards; oracle: map on the same input with one core: the same keys and values in the same order; with failing items a prefix of map's results followed by the mapped function's error; and completion within 10 s; non-trivial = more items than cores"},
 		gen, check)
 }
